@@ -838,6 +838,8 @@ class Interp:
         if t is None:
             raise Violation("print returned NULL without an allocation failure", key="print-null")
         self.feat.add("print")
+        if (k in (0, 1, 4) and len(t) > 256) or (k == 2 and len(t) > c % 300):
+            self.feat.add("print_growth")
         return "print(variant=%d,%d bytes)" % (k, len(t))
 
     def op_compare(self, a, b, c, d):
@@ -971,3 +973,77 @@ class Interp:
         self.feat.add("util_sorting")
         self.sorted_unsorted = getattr(self, "sorted_unsorted", False) or any(x.t == "O" and len(x.children) >= 3 for x in w.all_nodes())
         return what
+
+    # ------------------------------------------------------------ C14: utility calls, memory accounting only
+    def op_utils(self, a, b, c, d):
+        """cJSON_Utils entry points on plain trees; every returned block is released by the harness through cJSON_free/cJSON_Delete"""
+        w, lib = self.w, self.lib
+        roots = [r for r in self.clean_roots() if self.plain_root(r)]
+        r1 = pick(roots, a)
+        r2 = pick(roots, b)
+        if r1 is None:
+            return "skip"
+        k = c % 7
+        cs = d & 1
+        if k == 0:
+            nodes = []
+
+            def rec(n):
+                nodes.append(n)
+                for ch in n.children:
+                    rec(ch)
+            rec(r1)
+            x = pick(nodes, d >> 1)
+            raw = lib.cJSONUtils_FindPointerFromObjectTo(r1.ptr, x.ptr)
+            if not raw:
+                raise Violation("FindPointerFromObjectTo returned NULL for a node of the tree", key="utils-null")
+            text = ctypes.string_at(raw)
+            got = (lib.cJSONUtils_GetPointerCaseSensitive if cs else lib.cJSONUtils_GetPointer)(r1.ptr, text)
+            lib.cJSON_free(raw)
+            self.feat.add("utils")
+            return "utils_pointer(%r)" % text[:30]
+        if r2 is None:
+            return "skip"
+        if k in (1, 2):
+            p = (lib.cJSONUtils_GeneratePatchesCaseSensitive if cs else lib.cJSONUtils_GeneratePatches)(r1.ptr, r2.ptr)
+            self.resync(r1, "GeneratePatches")
+            if r2 is not r1:
+                self.resync(r2, "GeneratePatches")
+            if p and k == 2:
+                dup = lib.cJSON_Duplicate(r1.ptr, 1)
+                (lib.cJSONUtils_ApplyPatchesCaseSensitive if cs else lib.cJSONUtils_ApplyPatches)(dup, p)
+                lib.cJSON_Delete(dup)
+            if p:
+                lib.cJSON_Delete(p)
+            self.feat.add("utils")
+            return "utils_patches(apply=%d)" % (k == 2)
+        if k in (3, 4):
+            p = (lib.cJSONUtils_GenerateMergePatchCaseSensitive if cs else lib.cJSONUtils_GenerateMergePatch)(r1.ptr, r2.ptr)
+            self.resync(r1, "GenerateMergePatch")
+            if r2 is not r1:
+                self.resync(r2, "GenerateMergePatch")
+            if p and k == 4:
+                dup = lib.cJSON_Duplicate(r1.ptr, 1)
+                res = (lib.cJSONUtils_MergePatchCaseSensitive if cs else lib.cJSONUtils_MergePatch)(dup, p)
+                if res:
+                    lib.cJSON_Delete(res)
+            if p:
+                lib.cJSON_Delete(p)
+            self.feat.add("utils")
+            return "utils_merge(apply=%d)" % (k == 4)
+        if k == 5:
+            patch = lib.cJSON_CreateArray()
+            lib.cJSONUtils_AddPatchToArray(patch, b"add", b"/added~0by~1patch", r2.ptr)
+            lib.cJSONUtils_AddPatchToArray(patch, b"remove", b"/no such member", None)
+            dup = lib.cJSON_Duplicate(r1.ptr, 1)
+            lib.cJSONUtils_ApplyPatchesCaseSensitive(dup, patch)
+            lib.cJSON_Delete(dup)
+            lib.cJSON_Delete(patch)
+            self.feat.add("utils")
+            return "utils_add_patch_to_array"
+        dup = lib.cJSON_Duplicate(r1.ptr, 1)
+        res = (lib.cJSONUtils_MergePatchCaseSensitive if cs else lib.cJSONUtils_MergePatch)(dup, r2.ptr)
+        if res:
+            lib.cJSON_Delete(res)
+        self.feat.add("utils")
+        return "utils_merge_apply"
